@@ -46,6 +46,9 @@ type session struct {
 	pos     int
 	timeout bool
 	gated   bool
+	done    map[int]bool // runs whose VM has ended
+	goCalls int          // calls started with `go`
+	asyncs  int          // host functions of go calls that have run
 }
 
 var cur *session
@@ -69,6 +72,10 @@ func hook(vm, env uintptr, ev string, a int, b uintptr) {
 		return
 	}
 	if ev == "run-end" {
+		if r, ok := s.vmRun[vm]; ok {
+			s.done[r] = true
+			s.cond.Broadcast()
+		}
 		delete(s.vmRun, vm)
 		return
 	}
@@ -82,6 +89,11 @@ func hook(vm, env uintptr, ev string, a int, b uintptr) {
 	if s.gated && !s.timeout {
 		deadline := time.Now().Add(3 * time.Second)
 		for !s.timeout && s.pos < len(s.sched) && s.sched[s.pos] != r {
+			if s.sched[s.pos] > 0 && s.done[s.sched[s.pos]] {
+				s.pos++ // that run has ended (a `go` call has one gate event less than the schedule planned)
+				s.cond.Broadcast()
+				continue
+			}
 			if time.Now().After(deadline) {
 				s.timeout = true
 				s.cond.Broadcast()
@@ -94,7 +106,11 @@ func hook(vm, env uintptr, ev string, a int, b uintptr) {
 			s.cond.Broadcast()
 		}
 	}
-	e := map[string]any{"t": s.t, "ev": "gate", "run": r, "g": ev, "ptr": 0}
+	e := map[string]any{"t": s.t, "ev": "gate", "run": r, "g": ev, "ptr": 0, "go": 0}
+	if ev == "native-call" && a == 1 {
+		e["go"] = 1
+		s.goCalls++
+	}
 	if ev != "native-call" {
 		id, ok := s.ptrs[b]
 		if !ok {
@@ -120,9 +136,14 @@ func F(env native.Env, x int, tag string) int {
 	curMu.RLock()
 	s := cur
 	curMu.RUnlock()
-	if s != nil {
+	if s != nil && r > 0 {
 		s.mu.Lock()
-		s.events = append(s.events, map[string]any{"t": s.t, "ev": "host", "run": r, "seen": x / 1000})
+		async := 0
+		if strings.HasPrefix(tag, "go") {
+			async = 1
+			s.asyncs++
+		}
+		s.events = append(s.events, map[string]any{"t": s.t, "ev": "host", "run": r, "seen": x / 1000, "async": async})
 		s.mu.Unlock()
 	}
 	runtime.Gosched()
@@ -136,10 +157,13 @@ func Input(env native.Env, dummy int) int {
 	curMu.RLock()
 	s := cur
 	curMu.RUnlock()
-	if s != nil {
+	if s != nil && r > 0 {
 		s.mu.Lock()
-		s.events = append(s.events, map[string]any{"t": s.t, "ev": "host", "run": r, "seen": r})
+		s.events = append(s.events, map[string]any{"t": s.t, "ev": "host", "run": r, "seen": r, "async": 0})
 		s.mu.Unlock()
+	}
+	if r < 0 {
+		r = -r
 	}
 	return r * 1000
 }
@@ -151,8 +175,15 @@ type artefact struct {
 	run  func(ctx context.Context, x any) (string, string) // output+prints, error text
 }
 
+// withGo makes the first native call of the artefact a go statement (its output does not depend on it)
+var withGo bool
+
 func tmplSrc(calls int) string {
 	var b strings.Builder
+	if withGo {
+		b.WriteString(`{%% go F(x, "go") %%}`)
+		calls--
+	}
 	for k := 0; k < calls; k++ {
 		fmt.Fprintf(&b, "[{{ F(x, %q) }}]", strings.Repeat("a", k+1))
 	}
@@ -163,6 +194,10 @@ func tmplSrc(calls int) string {
 func progSrc(calls int) string {
 	var b strings.Builder
 	b.WriteString("package main\nimport \"p\"\nvar g = 5\nfunc main() {\n\tv := p.Input(0)\n\tg += v\n")
+	if withGo && calls > 1 {
+		b.WriteString("\tgo p.F(v, \"go\")\n")
+		calls--
+	}
 	for k := 0; k < calls-1; k++ { // Input is one of the `calls` native calls
 		fmt.Fprintf(&b, "\tprintln(p.F(v, %q))\n", strings.Repeat("a", k+1))
 	}
@@ -172,7 +207,7 @@ func progSrc(calls int) string {
 
 func buildTemplate(calls int) artefact {
 	t, err := scriggo.BuildTemplate(scriggo.Files{"index.txt": []byte(tmplSrc(calls))}, "index.txt",
-		&scriggo.BuildOptions{Globals: native.Declarations{"F": F, "x": (*int)(nil)}})
+		&scriggo.BuildOptions{AllowGoStmt: true, Globals: native.Declarations{"F": F, "x": (*int)(nil)}})
 	drv.Must(err)
 	return artefact{"template", func(ctx context.Context, x any) (string, string) {
 		var buf bytes.Buffer
@@ -182,7 +217,7 @@ func buildTemplate(calls int) artefact {
 }
 
 func buildProgram(calls int) artefact {
-	p, err := scriggo.Build(scriggo.Files{"main.go": []byte(progSrc(calls))}, &scriggo.BuildOptions{Packages: pkgs})
+	p, err := scriggo.Build(scriggo.Files{"main.go": []byte(progSrc(calls))}, &scriggo.BuildOptions{AllowGoStmt: true, Packages: pkgs})
 	drv.Must(err)
 	return artefact{"program", func(ctx context.Context, x any) (string, string) {
 		var mu sync.Mutex
@@ -200,7 +235,7 @@ func errText(err error) string {
 }
 
 func newSession(t int) *session {
-	s := &session{t: t, vmRun: map[uintptr]int{}, ptrs: map[uintptr]int{}}
+	s := &session{t: t, vmRun: map[uintptr]int{}, ptrs: map[uintptr]int{}, done: map[int]bool{}}
 	s.cond = sync.NewCond(&s.mu)
 	return s
 }
@@ -248,7 +283,8 @@ func runBatch(c c10Case, form string, build func(int) artefact) []any {
 	refs := make([][2]string, c.Runs)
 	for r := 1; r <= c.Runs; r++ {
 		fresh := build(c.Calls)
-		o, e := fresh.run(context.WithValue(context.Background(), ctxKey{}, r), r*1000)
+		// (negative run id: the host functions do not log reference runs, whose go calls may still be in flight later)
+		o, e := fresh.run(context.WithValue(context.Background(), ctxKey{}, -r), r*1000)
 		refs[r-1] = [2]string{o, e}
 	}
 	curMu.Lock()
@@ -286,6 +322,16 @@ func runBatch(c c10Case, form string, build func(int) artefact) []any {
 		if old > 0 {
 			runtime.GOMAXPROCS(old)
 		}
+	}
+	// the host functions of go calls run asynchronously: give them a moment to report
+	for k := 0; k < 400; k++ {
+		s.mu.Lock()
+		pending := s.goCalls - s.asyncs
+		s.mu.Unlock()
+		if pending <= 0 {
+			break
+		}
+		time.Sleep(250 * time.Microsecond)
 	}
 	curMu.Lock()
 	cur = nil
@@ -362,6 +408,7 @@ func main() {
 				return ptrVar(c.ID)
 			}
 			var out []any
+			withGo = c.ID%2 == 0 && c.Calls >= 2
 			out = append(out, runBatch(c, "template", buildTemplate)...)
 			c2 := c
 			c2.ID = c.ID + 5000000
